@@ -210,7 +210,7 @@ def history_strategy(tier: str):
     return st.fixed_dictionaries({
         'tree': st.lists(node_strategy(tier), min_size=1, max_size=4),
         'opts': options_strategy(),
-        'pre_fail': st.sampled_from([None, None, 'deep', 'nonstr', 'bad_file']),
+        'pre_fail': st.sampled_from([None, 'deep', 'nonstr', 'bad_file', 'single_block', 'pushback_abandoned', 'peek_abandoned']),
         'muts': st.lists(c09.kv_mut_strategy(), min_size=1, max_size=6),
         'delivery': st.sampled_from(['str', 'chars', 'file']),
     })
@@ -236,6 +236,21 @@ def execute_history(desc, ctx):
                     cur.append(nxt)
                     cur = nxt
                 Keyvalues.root(Keyvalues('first', 'x'), deep).serialise()
+            elif pre == 'single_block':
+                # an earlier, unrelated parse in the same process that returns before its tokenizer reached the end
+                Keyvalues.parse('"Name" "Value"', single_block=True)
+                Keyvalues.parse('"Blk"\n{\n"a" "b"\n}\n"Other" "x"', single_block=True)
+            elif pre == 'pushback_abandoned':
+                from srctools.tokenizer import Tokenizer, Token
+                tok = Tokenizer('a } "c"')
+                tok()
+                tok.push_back(Token.BRACE_CLOSE, '}')          # tokenizer dropped with a token still pushed back
+                del tok
+            elif pre == 'peek_abandoned':
+                from srctools.tokenizer import Tokenizer
+                tok = Tokenizer('} {')
+                tok.peek()
+                del tok
             elif pre == 'nonstr':
                 Keyvalues.root(Keyvalues('first', 'x'), Keyvalues('bad', 5)).serialise()       # type: ignore[arg-type]
             else:
@@ -267,7 +282,7 @@ SUBCHECKS = [
         must_hit=('block', 'esc', 'esc_block_name', 'empty_block', 'unicode',
                   'delivery:chunks', 'delivery:file', 'delivery:lines', 'delivery:chars', 'delivery:special')),
     Sub('history', execute_history, strategy=history_strategy, quick=1200, thorough=40000, floor=50,
-        must_hit=('mut:edit_name', 'mut:rename', 'mut:set_value', 'pre_fail:deep', 'pre_fail:nonstr', 'pre_fail:bad_file', 'pre_fail:raised')),
+        must_hit=('mut:edit_name', 'mut:rename', 'mut:set_value', 'pre_fail:single_block', 'pre_fail:pushback_abandoned', 'pre_fail:deep', 'pre_fail:nonstr', 'pre_fail:bad_file', 'pre_fail:raised')),
 ]
 
 MATCHERS = {}
